@@ -205,8 +205,64 @@ def check (c : Case) (extra : St → Bytes → Option String) (xtag : St → Imp
 
 def ch (c : Case) : Verdict := check c (fun _ _ => none) (fun _ _ => "")
 
+/-! ### both ClientHellos of a handshake with a HelloRetryRequest (`ch_hrr`) -/
+
+/-- strict parse + validity of one hello on the wire. -/
+def wireClause (raw : Bytes) : Option String :=
+  match parseCH raw with
+  | none => some "length-prefix-mismatch-or-trailing-bytes"
+  | some p => invalidClause p
+
+/-- `ch_hrr`: the input is a TLS 1.3 parrot or a generated spec within limits (each type once, no
+cookie of its own); **both** hellos on the wire must be valid ClientHellos — in particular the second
+one, re-marshalled after the cookie was inserted and the key share replaced, must not repeat a type.
+The state after the handshake is what the second marshal read: the model must predict the second hello. -/
+def chHrr (c : Case) : Verdict :=
+  match implOf c with
+  | .pre cls => .ok s!"pre-error,{(cls.splitOn "_").headD "?"}"
+  | _ =>
+    -- generated specs: shape judged on the spec handed to ApplyPreset (keys and names are filled in later),
+    -- field values on the state reported after the handshake
+    let inputOK := match c.input.get "exts" with
+      | some s => match parseExts s with
+        | some xs => inputShapeOK xs
+        | none => false
+      | none => true
+    let kind := if (c.input.get "exts").isSome then "custom" else "parrot"
+    let ck := match c.input.nat "ck" with
+      | some 0 => "nocookie" | some n => if n ≥ 1000 then "cookie1000" else if n ≥ 32 then "cookie32+" else "cookie-small"
+      | none => "?"
+    let grp := if c.input.nat "g" == some 0 then "cookie-only" else "newgroup"
+    match (c.output.get "ch1").bind unhex with
+    | none => .bad "ch_hrr: no first hello"
+    | some ch1 =>
+      let ch2 := match c.output.get "ch2" with
+        | some "-" => none
+        | some h => unhex h
+        | none => none
+      let tag := s!"{kind},{ck},{grp},hellos={if ch2.isSome then 2 else 1},{c.output.getD "cerr" "?"}"
+      if !inputOK then .ok (tag ++ ",input-beyond-limits") else
+      match wireClause ch1 with
+      | some cl => .propFail tag s!"{cl}@ch1"
+      | none =>
+        match ch2 with
+        | none => .ok tag
+        | some raw2 =>
+          match parseState c with
+          | none => .bad "ch_hrr: unparsable state"
+          | some st =>
+            if !(fieldsOK st.f && st.xs.all extOKb) then .ok (tag ++ ",state-beyond-limits") else
+            match wireClause raw2 with
+            | some cl => .propFail tag s!"{cl}@ch2"
+            | none =>
+              let m := marshalNoECH st.f st.pol st.xs
+              if agrees m (.raw raw2) then .ok tag
+              else
+                let ms := resStr m
+                .diff tag (if ms.length > 300 then (ms.take 300).toString ++ "…" else ms)
+
 def families : List (String × (Case → Verdict)) :=
   [("ch_parrot", ch), ("ch_custom", ch), ("ch_marshal", ch), ("ch_fp", ch), ("ch_json", ch), ("ch_resume", ch),
-   ("ch_bound", ch), ("ch_grease", ch)]
+   ("ch_bound", ch), ("ch_grease", ch), ("ch_hrr", chHrr)]
 
 end Drv.C02
